@@ -2,8 +2,12 @@
 # usage: tools/apply_fix.sh <patch.diff>...  -- applies each patch to /repo as its own "fix:" commit (message = leading "# " lines)
 set -e
 for p in "$@"; do
-  msg=$(grep '^# ' "$p" | sed 's/^# //' )
+  msg=$(grep '^#' "$p" | sed 's/^# \{0,1\}//' )
   first=$(echo "$msg" | head -1)
+  rest=$(echo "$msg" | tail -n +2 | sed '/./,$!d')
+  msg="$first
+
+$rest"
   case "$first" in fix:*) ;; *) echo "patch $p has no fix: message"; exit 1;; esac
   git -C /repo apply --whitespace=nowarn "$p"
   (cd /repo && go build ./... )
